@@ -9,7 +9,7 @@ pub const DEF: PropDef = PropDef {
     id: "C02",
     rule: "programs = control-flow backbone (calls/returns, recursion, locals incl. re-initialisation inside loops and declarations under untaken branches, do/begin loops, break, case, variable stores) + snippets for over/rot/swap/dup/drop, vector/map/tag builders, foreach over vectors and maps, let destructuring, late words, collect/unbox, bit-string cursor reads (open-bitstr u8 bits seek close-bitstr), emit; no meta blocks. 1 case in 4 is instead a straight-line program over the whole native dictionary (every word of C13's typed table with literal arguments that make it succeed, a binary input open). \
 The program is compiled with recording switched on (before or after compile) and driven by a generated walk of Fwd(a)/Back(b) moves inside [0, horizon] where horizon = the number of consecutive successful steps (measured on a throw-away clone). \
-Oracle (history invariant): the first time a position is reached its state (ip, whole data stack, call frames with locals, loop frames with their items, builder marks, every heap cell) is stored; after every single rnext() and every single re-executed next() the state must equal the stored state of the new position. Every walk ends with a full rewind to position 0 (where one more rnext() must change nothing) and a full replay to the farthest position. When the program's next step then fails (1 program in 3 has a failing tail), a second program is compiled, stepped 3 forward and 3 back: each position must be restored exactly - what the failed instruction changed before failing stays with the failed step. \
+Oracle (history invariant): the first time a position is reached its state (ip, whole data stack, call frames with locals, loop frames with their items, builder marks, every heap cell) is stored; after every single rnext() and every single re-executed next() the state must equal the stored state of the new position. Every walk ends with a full rewind to position 0 (where one more rnext() must change nothing) and a full replay to the farthest position. When the program's next step then fails (1 program in 3 has a failing tail), either the walk steps back from the failure (the first back-step restores the position of the failure or, when the failed instruction had changed nothing, the one before; then exact positions), or a second program is compiled, stepped 3 forward and 3 back: each position must be restored exactly - what the failed instruction changed before failing stays with the failed step. 1 case in 6 runs under a small stack limit, so that the failing step is a refused push. \
 Non-trivial = the walk has a Back of >=2 steps followed by a Fwd and the program executes a call, loop iteration, break, local, store, builder or cursor move; distinct = hash of program and walk",
     assumptions: &["instruction meter, captured stdout, last error and the log itself are not part of the compared state (the statement does not list them)"],
     max_len: 700,
@@ -52,6 +52,7 @@ pub fn case(ch: &mut Choices, ctx: &CaseCtx) -> CaseOut {
     xs.intercept_output(true).unwrap();
     xs.set_insn_limit(Some(200_000)).unwrap();
     let rec_before = ch.bool();
+    let mut stack_limited = false;
     if ch.chance(1, 3) {
         // something on the stack and in a variable before the program
         let _ = guard(|| xs.eval("11 22 5 var pre_v"));
@@ -74,6 +75,12 @@ pub fn case(ch: &mut Choices, ctx: &CaseCtx) -> CaseOut {
     }
     if !rec_before {
         xs.set_recording_enabled(true);
+    }
+    // 1 case in 6: a small data stack limit, so that the step that ends the walk is a push refused by the limit
+    if ch.chance(1, 6) {
+        let l = xs.data_depth() + 1 + ch.below(5);
+        xs.set_stack_limit(Some(l)).unwrap();
+        stack_limited = true;
     }
     let cap = if big { 1500 } else { 300 };
     // horizon on a throw-away clone
@@ -186,8 +193,54 @@ pub fn case(ch: &mut Choices, ctx: &CaseCtx) -> CaseOut {
     // must not be undone together with a later instruction)
     let mut after_failure = false;
     if fail.is_none() && pos == horizon && horizon < cap && xs.is_running() {
-        if let Ok(Err(_)) = guard(|| xs.next()) {
+        let in_place = ch.bool();
+        let failed = matches!(guard(|| xs.next()), Ok(Err(_)));
+        if failed && in_place {
+            // stepping back from the failure inside the same program: the first back-step either only takes back what
+            // the failed instruction had changed (position = horizon) or, when it had changed nothing, the last
+            // successful step (horizon - 1); from there on every position must be restored exactly
+            after_failure = true;
+            walk.push("the next step fails; then 3 steps back from the failure".to_string());
+            let r = guard(|| xs.rnext());
+            let d = dump(&xs);
+            let at = if !matches!(r, Ok(Ok(()))) {
+                None
+            } else if first_diff(&d, &states[horizon]).is_none() {
+                Some(horizon)
+            } else if horizon >= 1 && first_diff(&d, &states[horizon - 1]).is_none() {
+                Some(horizon - 1)
+            } else {
+                None
+            };
+            match at {
+                None => {
+                    let (sec, got, want) = first_diff(&d, &states[horizon]).unwrap_or(("", String::new(), String::new()));
+                    fail = Some(("stepping back from a failed step reaches a state that never existed".to_string(), format!("after the failed step and one rnext: {} is\n  {}\nat the failure point it was\n  {}", sec, got, want)));
+                }
+                Some(mut p) => {
+                    for _ in 0..2 {
+                        if p == 0 {
+                            break;
+                        }
+                        match guard(|| xs.rnext()) {
+                            Ok(Ok(())) => {
+                                p -= 1;
+                                if let Some((sec, got, want)) = first_diff(&dump(&xs), &states[p]) {
+                                    fail = Some((format!("undoing {} after a failed step: {} not restored", ops_at[p], sec), format!("after rnext {} -> {}: {} is\n  {}\nbut was\n  {}", p + 1, p, sec, got, want)));
+                                    break;
+                                }
+                            }
+                            _ => {
+                                fail = Some(("rnext fails after a failed step".to_string(), format!("at position {}", p)));
+                                break;
+                            }
+                        }
+                    }
+                }
+            }
+        } else if failed {
             let second = ["11 22 swap drop", "5 dup drop drop", "[ 1 2 ] length drop"][ch.below(3)];
+            let _ = xs.set_stack_limit(None);
             if let Ok(Ok(())) = guard(|| xs.compile(second)) {
                 after_failure = true;
                 walk.push(format!("the next step fails; then `{}` is compiled, stepped 3 forward and 3 back", second));
@@ -239,7 +292,10 @@ pub fn case(ch: &mut Choices, ctx: &CaseCtx) -> CaseOut {
         out.class(f);
     }
     if after_failure {
-        out.class("failed-step-then-second-program-stepped-back");
+        out.class("failed-step-then-stepped-back");
+    }
+    if stack_limited {
+        out.class("stack-limit-set");
     }
     if back2_then_fwd {
         out.class("back>=2-then-forward");
